@@ -25,14 +25,14 @@ def run(prog, chk):
         "OS/2 first / last character index = min / max of the mapped code points, last capped at 0xFFFF, 0xFFFF without code points; maxp.numGlyphs = number of glyphs in the glyph order; post 2.0 names follow the glyph order; VORG default = most frequent origin, records for the others (R04.6)",
     ]
     chk.not_decided += ["save / reload / re-save byte identity (fontTools)", "glyph bounding box arithmetic (pens)", "values recalculated by fontTools at compile time (maxp for glyf, OS/2 indices)"]
-    r041(prog, chk)
-    r042(prog, chk)
-    r043(prog, chk)
-    r044(prog, chk)
-    r045(prog, chk)
-    r046(prog, chk)
-    r047(prog, chk)
-    r048(prog, chk)
+    chk.guard(r041, prog, chk)
+    chk.guard(r042, prog, chk)
+    chk.guard(r043, prog, chk)
+    chk.guard(r044, prog, chk)
+    chk.guard(r045, prog, chk)
+    chk.guard(r046, prog, chk)
+    chk.guard(r047, prog, chk)
+    chk.guard(r048, prog, chk)
 
 
 # ----------------------------------------------------------------------------- R04.1
